@@ -7,7 +7,6 @@ EXPLANATION = ('Value-flow normal forms of ChainTracker::{new,step,stats}, Multi
                'sm2 = (mean_sq - mean^2) n/(n-1); collect_rhat = sqrt(var/W), W = mean_j sm2_j, var = (n-1)/n W + sum_j (mean_j - mean)^2/(m-1) with m the NUMBER '
                'OF CHAINS; MultiChainTracker::rhat the same form (B = n/(m-1) sum, var = (n-1)/n W + B/n); acceptance EMA p := (1-a) p + a [x != last], a = 1/100, '
                'indicator in {0,1}, initial value in [0,1] (negative sentinel replaced by the first indicator), last_state := x.')
-FLOORS = {'obligations': 48}   # counted on the reference tree; fewer instantiated obligations is reported, never passed silently
 TECHNIQUE = 'value-flow normal form vs specification table; sibling agreement; fold (loop) summary for the EMA'
 HUND = T.div(T.ONE, N(100))
 
